@@ -18,7 +18,7 @@ HOOKS = {
 
 ENGINES = [
     {'name': 'vf', 'path': 'vf/harness.py',
-     'serves_properties': ['C01', 'C02', 'C05', 'C07', 'C13', 'C15', 'C16', 'C20'],
+     'serves_properties': ['C01', 'C02', 'C05', 'C07', 'C08', 'C09', 'C13', 'C15', 'C16', 'C20'],
      'kind_free_text': ('runtime monitoring driver: 16 worker processes import the real '
                         'openhtf from /repo, run enumerated + seeded cases, monitors '
                         'decide each property from observed events; witnesses are '
@@ -129,5 +129,30 @@ CHECKS = {
                  'false/raising run_if means no invocation and no record, every diagnoser ran once per eligible invocation, and '
                  'each record equals the documented function of what the invocation did'),
         'note': 'expected records come from vf/progmodel.Model.once; time-outs use the virtual clock',
+    },
+    'C08': {
+        'level': 'fault_enumeration',
+        'technique': 'runtime trace monitoring with fault injection: instrumented plug classes and phase bodies log constructor/tearDown/injection events; trace predicates over the event log under enumerated constructor/tearDown faults',
+        'text': ('ten directed programs (plugs on test_start, in groups, under subtests/branches, with raising/timed-out/'
+                 'stopping phases) are run under every single-plug fault (constructor raises, tearDown raises, tearDown hangs '
+                 'killably / unkillably with a 50 ms plug_teardown_timeout_s) and every ordered pair of selected faults; seeded '
+                 'random programs x plug assignments x fault maps extend it; predicates: at most one construction per class, '
+                 'every phase received the run\'s instance under the requested name, every constructed instance torn down exactly '
+                 'once after the last phase/diagnoser event and before the callbacks, faults in tearDown change neither outcome '
+                 'nor the phases run nor other plugs\' tearDown, a constructor failure gives ERROR with no further phase, only '
+                 'test_start\'s plugs exist while test_start runs'),
+        'note': 'outcome/phase expectations come from the reference interpreter; abort timing is covered by C04',
+    },
+    'C09': {
+        'level': 'exploration',
+        'technique': 'runtime monitoring: recording (and raising) output callbacks plus post-return probes of Test.state, TEST_INSTANCES and the openhtf logger over exit paths and execute() histories',
+        'text': ('19 exit-path programs (vacuous, all-skip, exception, STOP, time-out, terminal test_start, plug constructor '
+                 'failure, executor failure, ...) x 6 histories (single, twice, thrice, overlapping execute() from a phase body and '
+                 'from a second thread, execute after an aborted run) x 1-4 callbacks x raising subsets, plus seeded random '
+                 'programs/settings; judged: every callback called exactly once in registration order with the same finalized '
+                 'record, record and phase-record completeness and time ordering, dut_id default, metadata test name and per-run '
+                 'config snapshot, return value, and after return no executor, no SIGINT registration, no RecordHandler left, '
+                 're-execution works, overlapping execute() refused without disturbing the running test'),
+        'note': 'raising callbacks raise Exception subclasses; KeyboardInterrupt paths belong to C04',
     },
 }
